@@ -1,6 +1,7 @@
 package verifsim
 
 import (
+	"crypto/x509"
 	"fmt"
 	"path/filepath"
 	"time"
@@ -167,7 +168,7 @@ func runStrictConcurrent(h *Harness, j int) {
 // unreachable origin, so the entry exists with an empty store. From then on every lookup in that store would fail (the
 // store-method seam makes GetCertRevocationStatus return an I/O error). Nothing of that CRL is in force, so nothing of it
 // is consulted: a lenient handshake is not denied, a strict one is denied for the gate's reason.
-func lenientUnloadedRuns(tier string) int { return 4 }
+func lenientUnloadedRuns(tier string) int { return 8 }
 
 func runLenientUnloaded(h *Harness, j int) {
 	sc := h.R.Scenario
@@ -193,6 +194,43 @@ func runLenientUnloaded(h *Harness, j int) {
 		return
 	}
 	h.Settle(5 * time.Second)
+	if j >= 4 {
+		// second kind: the origin is fine, but the store cannot switch to the list the first use delivered (one I/O
+		// failure at the switch). The entry holds nothing in force; in lenient mode that is nobody's fault but the
+		// validator's: no certificate is denied for it, now or after the updater has loaded the list
+		sc["scenario"] = "lenient-first-switch-fails"
+		failed := false
+		ff.SetPlan(func(m string, temporary bool) error {
+			if m == "Update" && !temporary && !failed {
+				failed = true
+				return ErrIO
+			}
+			return nil
+		})
+		h.Handshake(n, "first-use-switch-fails", w.ChainFor(loc.Cert(loc.Never[0]), w.A))
+		ff.SetPlan(nil)
+		if !failed {
+			h.Probe("switch-fault-not-reached")
+		}
+		for round, wait := range []time.Duration{5 * time.Second, 11 * time.Minute} {
+			h.Settle(wait)
+			for _, c := range []struct {
+				name   string
+				chains [][]*x509.Certificate
+			}{{"same-cdp", w.ChainFor(loc.Cert(loc.Never[0]), w.A)}, {"other-cdp", w.ChainFor(other.Cert(other.Never[0]), w.A)}, {"no-cdp", w.ChainFor(w.A.Issue(EEOpts{Serial: other.Never[0], CDP: []string{}}), w.A)}} {
+				hs := h.Handshake(n, fmt.Sprintf("lenient-%s-%d", c.name, round), c.chains)
+				h.R.Checks++
+				if hs.Err != nil {
+					h.Violation("C10.lenient-deny", "lenient-deny:after-failed-first-switch:"+c.name, "lenient: after the store switch of a first use failed once (I/O error), a certificate that no list names (%s, %s later) was denied: %v", c.name, wait, hs.Err)
+					h.Cleanup(n)
+					return
+				}
+			}
+		}
+		h.R.Sample = map[string]any{"scenario": "lenient-first-switch-fails", "backend": backend, "fetch": fetch, "switch_failed": failed}
+		h.Cleanup(n)
+		return
+	}
 	loc.State = oDown
 	h.Handshake(n, "first-while-down", w.ChainFor(loc.Cert(loc.Never[0]), w.A))
 	h.Settle(5 * time.Second)
